@@ -134,6 +134,19 @@ def item(item_id, slug=None, obj_id=None, mos_id=None, note_text=None, extra=Non
     return E('item', *kids)
 
 
+def decoys(story_id=None, item_id=None):
+    """Elements named like structural ones, nested inside an item's own metadata payload, where only a
+    recursive search (.//x, iter(x)) can find them: completion marker, message elements, a story and an item
+    carrying the given IDs, bare ID tags, paragraphs, timing tags."""
+    return E('mosExternalMetadata', T('mosSchema', 'decoy'), E(
+        'mosPayload', E('mosromgrmeta', E('roDelete', T('roID', 'decoy'))), E('roCreate', T('roID', 'decoy')),
+        E('story', T('storyID', story_id), T('p', 'decoy paragraph in a nested story')),
+        E('item', T('itemID', item_id), T('itemSlug', 'decoy')),
+        T('storyID', story_id), T('itemID', item_id), T('p', 'decoy paragraph'), T('roEdStart', '1999-01-01T00:00:00'),
+        T('StoryDuration', '999'), T('StoryStarted', '1999-01-01T00:00:00'), T('StoryEnded', '1999-01-01T00:00:01'),
+        E('storyBody', E('storyItem', T('itemID', item_id))), E('element_source', T('storyID', story_id))))
+
+
 def story(story_id, slug=None, timing=None, body=(), tag='story'):
     """body: sequence of ready Elements (items, p, other)."""
     kids = [T('storyID', story_id)]
